@@ -112,7 +112,8 @@ def observer(got, pred, sp, call, sg, prog, ctx, part):
 def _pars(t):
     k = t['k']
     if k == 'par':
-        yield t['p']
+        if t['p'] != 99:          # 99 is the scale atom of "tiny" literals, not a Parameter
+            yield t['p']
     elif k == 'un':
         yield from _pars(t['a'])
     elif k == 'bin':
